@@ -102,3 +102,33 @@ MUTATIONS = [
     dict(name="c11-psd-eig", file="sigpy/thresh.py", props=["C11"],
          old="xp.linalg.eigh(", new="xp.linalg.eig("),
 ]
+
+MUTATIONS += [
+    # ---- C12
+    dict(name="c12-beta-inverted", file="sigpy/alg.py", props=["C12"],
+         old="                beta = rznew / self.rzold", new="                beta = self.rzold / rznew"),
+    dict(name="c12-precond-on-p", file="sigpy/alg.py", props=["C12"],
+         old="                util.xpay(self.p, beta, z)", new="                util.xpay(self.p, beta, self.r)"),
+    dict(name="c12-no-breakdown-stop", file="sigpy/alg.py", props=["C12"],
+         old="            if pAp <= 0:\n                self.not_positive_definite = True\n                return",
+         new="            if pAp == 0:\n                self.not_positive_definite = True\n                return"),
+    dict(name="c12-resid-stale", file="sigpy/alg.py", props=["C12"],
+         old="                util.axpy(self.r, -self.alpha, Ap)\n",
+         new="                util.axpy(self.r, -self.alpha, Ap)\n                self.r = self.r.copy() * (1 + 1e-6)\n"),
+    # ---- C13
+    dict(name="c13-momentum", file="sigpy/alg.py", props=["C13"],
+         old="self.x + ((t_old - 1) / self.t) * (self.x - x_old)",
+         new="self.x + (t_old / self.t) * (self.x - x_old)"),
+    dict(name="c13-no-extrapolation", file="sigpy/alg.py", props=["C13"],
+         old="            backend.copyto(self.x_ext, self.x + theta * x_diff)",
+         new="            backend.copyto(self.x_ext, self.x + 0 * theta * x_diff)"),
+    dict(name="c13-dual-step-tau", file="sigpy/alg.py", props=["C13"],
+         old="        backend.copyto(self.u, self.proxfc(self.sigma, self.u))",
+         new="        backend.copyto(self.u, self.proxfc(self.tau, self.u))"),
+    dict(name="c13-sigma-not-rescaled", file="sigpy/alg.py", props=["C13"],
+         old="            with self.u_device:\n                self.sigma /= theta\n",
+         new="            with self.u_device:\n                self.sigma /= 1\n"),
+    dict(name="c13-fista-t", file="sigpy/alg.py", props=["C13"],
+         old="                self.t = (1 + (1 + 4 * t_old**2) ** 0.5) / 2",
+         new="                self.t = (1 + (1 + 2 * t_old**2) ** 0.5) / 2"),
+]
